@@ -80,6 +80,10 @@ def main():
     old = {}
     if os.path.exists(os.path.join(out, "meta.json")):
         old = json.load(open(os.path.join(out, "meta.json")))
+    merged = dict(old.get("check_results", {}))
+    merged.update(meta.get("check_results", {}))
+    meta["check_results"] = merged
+    meta["caught"] = any(r["rc"] == 1 for r in merged.values())
     meta["history"] = old.get("history", []) + [{"caught": meta.get("caught"), "checks": {k: v["rc"] for k, v in meta.get("check_results", {}).items()}}]
     json.dump(meta, open(os.path.join(out, "meta.json"), "w"), indent=1)
     print(json.dumps({k: meta[k] for k in meta if k not in ("needs_to_manifest", "demo_on_patched_output_tail")}, indent=1))
